@@ -16,6 +16,7 @@ type c03Case struct {
 	Name string  `json:"name"`
 	M    ref.Msg `json:"m"`
 	Fits bool    `json:"fits"`
+	Then *ref.Msg `json:"then,omitempty"` // a second message encoded before the first one's bytes are decoded
 }
 
 func depthFor(c *engine.Ctx) int {
@@ -36,18 +37,26 @@ func init() {
 		Run: func(c *engine.Ctx) {
 			univ.Messages(depthFor(c), func(name string, m ref.Msg) {
 				if c.Mine() {
-					evalC03(c, c03Case{name, m, true})
+					evalC03(c, c03Case{Name: name, M: m, Fits: true})
 				}
 			})
 			univ.Sweeps(c.Thorough(), func(name string, m ref.Msg, fits bool) {
 				if c.Mine() {
-					evalC03(c, c03Case{name, m, fits})
+					evalC03(c, c03Case{Name: name, M: m, Fits: fits})
 				}
 			})
 		},
 		Replay: func(c *engine.Ctx, raw json.RawMessage) {
 			var cs c03Case
 			unmarshalCase(raw, &cs)
+			c03Prev = nil
+			if cs.Then != nil {
+				first := cs
+				first.Then = nil
+				evalC03(c, first)
+				evalC03(c, c03Case{Name: "(then)", M: *cs.Then, Fits: true})
+				return
+			}
 			evalC03(c, cs)
 		},
 	})
@@ -109,7 +118,28 @@ func evalC03(c *engine.Ctx, cs c03Case) {
 			c.Distinct(engine.Hash64(b))
 		}
 	}
+	// delayed decode: the encoding of the previous message, still held by the caller, is decoded only
+	// after this message has been encoded (an encoder that hands out memory it reuses later is
+	// invisible to an immediate encode -> decode)
+	if prev := c03Prev; prev != nil && len(prev.wire) <= 4096 {
+		c.Transitions++
+		pm, perr, ppi := decodeLib(prev.wire)
+		if ppi != nil || perr != nil || univ.Project(pm).Canon() != prev.canon {
+			c.Violate("roundtrip/encoding-changed-after-later-encode", fmt.Sprintf("the bytes returned by Encode for %q no longer decode to that message after %q was encoded (err=%v)", prev.name, cs.Name, perr),
+				c03Case{Name: prev.name + " || " + cs.Name, M: prev.m, Fits: true, Then: &cs.M})
+		}
+	}
+	c03Prev = &c03Held{name: cs.Name, m: m, wire: b, canon: m.Canon()}
 }
+
+type c03Held struct {
+	name  string
+	m     ref.Msg
+	wire  []byte
+	canon string
+}
+
+var c03Prev *c03Held
 
 func trunc(b []byte, n int) []byte {
 	if len(b) > n {
